@@ -72,6 +72,13 @@ namespace GeographicLib {
   }
 
   int Utility::day(int y, int m, int d, bool check) {
+    // Fields this large can't be a valid date and would overflow the integer
+    // arithmetic in day(y, m, d).
+    const int maxfield = 1000000;
+    if (check && !(abs(y) <= maxfield && abs(m) <= maxfield &&
+                   abs(d) <= maxfield))
+      throw GeographicErr("Invalid date " +
+                          str(y) + "-" + str(m) + "-" + str(d));
     int s = day(y, m, d);
     if (!check)
       return s;
